@@ -2,28 +2,36 @@
 {
  'package': 'brush-interactive',
  'host': 'brush-interactive/src/highlighting.rs',
- 'stubs': ['transplants of Highlighter::append_span, skip_ahead, set_next_missing_kind, highlight_word_piece and highlight_program on a duck-typed highlighter: `spans` is a recorder that checks each pushed span against the tiling invariant, `input_line` an ASCII line of a given length',
-           'brush_parser::tokenize_str_with_options -> oracle returning <= 2 tokens (operator / word, symbolic) at symbolic, in-order, in-range character offsets, or a tokenizer error',
-           'brush_parser::word::parse -> oracle returning <= 2 pieces of symbolic kind at symbolic, in-order offsets inside the word, or a parse error', 'get_kind_for_word -> oracle (any kind)',
-           'a nested piece / nested command substitution -> oracle implementing the induction hypothesis (a piece processed from a state that has not passed its start leaves the cursor at its end with the tiling intact)',
+ 'stubs': ['transplants of highlight_command, Highlighter::new, append_span, floor_char_boundary, skip_ahead, set_next_missing_kind, highlight_word_piece and highlight_program on a duck-typed highlighter: `spans` is a recorder that checks each pushed span against the tiling invariant (starts where the previous one ended, non-empty, inside the line, both ends on character boundaries); `input_line` is a line of symbolic length whose character boundaries are a symbolic bitmap (multi-byte text)',
+           'brush_parser::tokenize_str_with_options -> oracle returning <= 2 tokens (operator / word, symbolic) at ARBITRARY character offsets (any order, overlapping, out of range), or a tokenizer error',
+           'brush_parser::word::parse -> oracle returning <= 2 pieces of symbolic kind at ARBITRARY offsets, or a parse error', 'get_kind_for_word -> oracle (any kind)',
+           'a nested piece / nested command substitution / a word piece inside the whole-program harnesses -> oracle making arbitrary append_span / skip_ahead calls (justified by vk_c19_append_span_step: every call preserves the invariant, so any sequence of calls does)',
            'the names brush_parser::word::WordPiece / WordPieceWithSource / Token are light stand-ins defined inside the harness module'],
- 'assumptions': ['the line is seen through a stand-in for `str` (char_indices / len / get) modelling ASCII text', 'the tokenizer / word parser offset contract: offsets are in order, non-overlapping and inside the enclosing range (their computation is outside: PEG + tokenizer)', 'ASCII lines (character index = byte index); multi-byte boundaries depend on the tokenizer\'s character offsets and are outside', 'line length 8, <= 2 tokens, <= 2 pieces per word'],
- 'out_of_claim': ['the offsets the tokenizer and word::parse actually produce', 'multi-byte text', 'termination of the parsers', 'which kind a word gets (cosmetic)'],
+ 'assumptions': ['whole-line harnesses use append_span through the post-condition proved by vk_c19_append_span_step (compositional)', 'offsets and lengths are below 2^40 (no usize overflow when a nested offset is added to its base)', 'input line <= 8 bytes in the step harnesses, 5 bytes in the whole-program harnesses; <= 2 tokens, <= 2 pieces per word', 'no assumption on what the tokenizer and the word parser return'],
+ 'out_of_claim': ['termination / panics inside the tokenizer and the word parser themselves (PEG + hand-written tokenizer over strings)', 'which kind (colour) a range gets', 'lines longer than the bounds (the invariant is inductive in the number of calls, the line length bounds the boundary bitmap only)'],
 }
 @*/
 /*@recipes
 {
- 'append_span': {'file': 'brush-interactive/src/highlighting.rs', 'start': r'fn append_span\(&mut self, kind: HighlightKind, range: std::ops::Range<usize>\)', 'mode': 'fn_body', 'self_to': 'this'},
+ 'command': {'file': 'brush-interactive/src/highlighting.rs', 'start': r'pub fn highlight_command<\'a>\(', 'mode': 'fn_body',
+        'rewrites': [[r'Highlighter::new\(shell, line, cursor\)', r't_new((), line.tok(), cursor)', 1],
+                     [r'highlighter\.highlight_program\(line, 0\)', r't_program(&mut highlighter, line, 0, __o)', 1],
+                     [r'Highlighted \{', r'Done {', 1]]},
+ 'new': {'file': 'brush-interactive/src/highlighting.rs', 'start': r'const fn new\(shell: &\'a brush_core::Shell<SE>, input_line: &\'a str, cursor: usize\) -> Self', 'mode': 'fn_body',
+        'rewrites': [[r'Self \{', r'Hl { contract: true,', 1], [r'Vec::new\(\)', r'SpanRec::new(input_line)', 1]]},
+ 'append_span': {'file': 'brush-interactive/src/highlighting.rs', 'start': r'fn append_span\(&mut self, kind: HighlightKind, range: std::ops::Range<usize>\)', 'mode': 'fn_body', 'self_to': 'this',
+        'rewrites': [[r'this\s*\.floor_char_boundary\(', r't_floor(this, ', 0]]},
+ 'floor': {'file': 'brush-interactive/src/highlighting.rs', 'start': r'fn floor_char_boundary\(&self, index: usize\) -> usize', 'mode': 'fn_body', 'self_to': 'this', 'if_absent': 'index'},
  'skip_ahead': {'file': 'brush-interactive/src/highlighting.rs', 'start': r'fn skip_ahead\(&mut self, dest: usize\)', 'mode': 'fn_body', 'self_to': 'this',
         'rewrites': [[r'this\.append_span\(', r't_append_span(this, ', 1]]},
  'set_missing': {'file': 'brush-interactive/src/highlighting.rs', 'start': r'const fn set_next_missing_kind\(&mut self, kind: HighlightKind\)', 'mode': 'fn_body', 'self_to': 'this'},
  'word_piece': {'file': 'brush-interactive/src/highlighting.rs', 'start': r'fn highlight_word_piece\(', 'mode': 'fn_body', 'self_to': 'this',
-        'rewrites': [[r'this\.append_span\(', r't_append_span(this, ', 4],
-                     [r'this\.skip_ahead\(', r't_skip_ahead(this, ', 2],
-                     [r'this\.set_next_missing_kind\(', r't_set_missing(this, ', 6],
-                     [r'this\.highlight_word_piece\(subpiece, HighlightKind::Quoted, global_offset\)', r'__o.nested_piece(this, subpiece, global_offset)', 1],
-                     [r'(?s)this\.highlight_program\(\s*command\.as_str\(\),\s*piece\.start \+ 1,?[^)]*\)', r'__o.nested_program(this, &command, piece.start + 1)', 1],
-                     [r'this\.highlight_program\(command\.as_str\(\), piece\.start \+ 2[^)]*\)', r'__o.nested_program(this, &command, piece.start + 2)', 1]]},
+        'rewrites': [[r'this\.append_span\(', r't_append_span(this, ', 1],
+                     [r'this\.skip_ahead\(', r't_skip_ahead(this, ', 1],
+                     [r'this\.set_next_missing_kind\(', r't_set_missing(this, ', 0],
+                     [r'this\.highlight_word_piece\(subpiece, HighlightKind::Quoted, global_offset\)', r'__o.anything(this)', 1],
+                     [r'(?s)this\.highlight_program\(\s*command\.as_str\(\),\s*piece\.start \+ 1,?[^)]*\)', r'__o.anything(this)', 1],
+                     [r'this\.highlight_program\(command\.as_str\(\), piece\.start \+ 2[^)]*\)', r'__o.anything(this)', 1]]},
  'token_step': {'file': 'brush-interactive/src/highlighting.rs', 'start': r'^\s*match token \{', 'mode': 'block',
         'rewrites': [[r'(?s)brush_parser::word::parse\(raw_word_text, &self\.shell\.parser_options\(\)\)', r'__o.parse_word(raw_word_text)', 1],
                      [r'(?s)self\.get_kind_for_word\(\s*w\.as_str\(\),\s*&token_range,\s*&mut saw_command_token,\s*\)', r'__o.kind(&token_range, &mut saw_command_token)', 1],
@@ -33,9 +41,9 @@
         'rewrites': [[r'(?s)brush_parser::tokenize_str_with_options\(\s*line,\s*&\(this\.shell\.parser_options\(\)\.tokenizer_options\(\)\),\s*\)', r'__o.tokenize(line)', 1],
                      [r'(?s)brush_parser::word::parse\(raw_word_text, &this\.shell\.parser_options\(\)\)', r'__o.parse_word(raw_word_text)', 1],
                      [r'(?s)this\.get_kind_for_word\(\s*w\.as_str\(\),\s*&token_range,\s*&mut saw_command_token,\s*\)', r'__o.kind(&token_range, &mut saw_command_token)', 1],
-                     [r'this\.append_span\(', r't_append_span(this, ', 2],
+                     [r'this\.append_span\(', r't_append_span(this, ', 1],
                      [r'this\.skip_ahead\(', r't_skip_ahead(this, ', 1],
-                     [r'(?s)this\.highlight_word_piece\(\s*word_piece,\s*default_text_kind,\s*token_range\.start,\s*\)', r'__o.piece_contract(this, word_piece, default_text_kind, token_range.start)', 1]]},
+                     [r'(?s)this\.highlight_word_piece\(\s*word_piece,\s*default_text_kind,\s*token_range\.start,\s*\)', r'__o.anything(this)', 1]]},
 }
 @*/
 use super::{HighlightKind, HighlightSpan};
@@ -54,6 +62,7 @@ pub mod brush_parser {
     impl W { pub fn as_str(&self) -> &str { "" } }
     #[derive(Clone, Copy)]
     pub enum Token { Operator(W, Loc), Word(W, Loc) }
+    impl Token { pub fn location(&self) -> &Loc { match self { Token::Operator(_, l) | Token::Word(_, l) => l } } }
     pub mod word {
         #[derive(Clone, Copy)]
         pub struct Txt { pub len: usize }
@@ -77,38 +86,65 @@ pub mod brush_parser {
 use brush_parser::word::{Sub, SubPiece, Txt, WordPiece, WordPieceWithSource};
 use brush_parser::{Loc, Pos, Token, W};
 
-// NOTE: every stand-in iterator ends at a *concrete* index (i >= 2) before consulting its symbolic length: CBMC unrolls a loop whose
+// NOTE: every stand-in iterator ends at a *concrete* index before consulting its symbolic length: CBMC unrolls a loop whose
 // exit depends on a symbolic value up to the unwind bound, which multiplied the 11-arm piece match 64 times (14 GB).
 // ---------------------------------------------------------------- duck-typed highlighter
-/// an ASCII line of `n` bytes seen through the slice of the `str` API highlight_program uses (character index = byte index)
-pub struct LineStr { pub n: usize }
-pub struct CharIdx { pub i: usize, pub n: usize }
-impl Iterator for CharIdx { type Item = (usize, char); fn next(&mut self) -> Option<(usize, char)> { if self.i < self.n { let i = self.i; self.i += 1; Some((i, 'a')) } else { None } }
-    // exact size hint: `collect()` then allocates once instead of growing the vector (realloc + memcpy with symbolic sizes)
-    fn size_hint(&self) -> (usize, Option<usize>) { (self.n - self.i, Some(self.n - self.i)) } }
-impl LineStr {
-    pub fn char_indices(&self) -> CharIdx { CharIdx { i: 0, n: self.n } }
+pub const MAXN: usize = 8;
+/// a line of `n` bytes whose character boundaries are `b[0..=n]` (b[0] and b[n] hold; at most 3 continuation bytes in a row: UTF-8)
+#[derive(Clone, Copy, Debug)]
+pub struct LineTok { pub n: usize, pub b: [bool; MAXN + 1] }
+impl LineTok {
+    pub fn is_char_boundary(&self, i: usize) -> bool { i <= self.n && self.b[i] }
     pub fn len(&self) -> usize { self.n }
-    /// a slice of the right *length* (the word parser oracle bounds its piece offsets by it)
-    pub fn get(&self, r: std::ops::Range<usize>) -> Option<&str> { if r.start <= r.end && r.end <= self.n { Some(&"aaaaaaaaaaaaaaaa"[..r.end - r.start]) } else { None } }
 }
-#[derive(Debug)]
-pub struct LineTok { pub len: usize }
-impl LineTok { pub fn is_char_boundary(&self, i: usize) -> bool { i <= self.len } }
-/// records spans and checks the tiling invariant incrementally: every span starts where the previous one ended and is non-empty
-pub struct SpanRec { pub end: usize, pub count: u8, pub tiled: bool }
-impl SpanRec { pub fn push(&mut self, s: HighlightSpan) { if !(s.range.start == self.end && s.range.end > s.range.start) { self.tiled = false; } self.end = s.range.end; self.count += 1; std::mem::forget(s); } }
-pub struct Hl { pub input_line: LineTok, pub cursor: usize, pub spans: SpanRec, pub current_byte_index: usize, pub next_missing_kind: Option<HighlightKind> }
+fn any_line(max: usize) -> LineTok {
+    let n: usize = kani::any(); kani::assume(n <= max);
+    let mut b: [bool; MAXN + 1] = kani::any();
+    b[0] = true;
+    let mut i = 0; let mut run = 0u8;
+    while i <= MAXN { if i == n { b[i] = true; } if i > n { b[i] = false; } if i <= n { if b[i] { run = 0; } else { run += 1; kani::assume(run <= 3); } } i += 1; }
+    LineTok { n, b }
+}
+/// the same line seen through the slice of the `str` API highlight_program uses
+pub struct LineStr { pub l: LineTok }
+pub struct CharIdx { pub i: usize, pub l: LineTok }
+impl Iterator for CharIdx { type Item = (usize, char);
+    fn next(&mut self) -> Option<(usize, char)> {
+        // skip continuation bytes (at most 3 in a row)
+        let mut k = 0; while k < 3 { if self.i < self.l.n && !self.l.b[self.i] { self.i += 1; } k += 1; }
+        if self.i < self.l.n { let i = self.i; self.i += 1; Some((i, 'a')) } else { None } } }
+impl LineStr {
+    pub fn tok(&self) -> LineTok { self.l }
+    pub fn char_indices(&self) -> CharIdx { CharIdx { i: 0, l: self.l } }
+    pub fn len(&self) -> usize { self.l.n }
+    pub fn get(&self, r: std::ops::Range<usize>) -> Option<&str> { if r.start <= r.end && self.l.is_char_boundary(r.start) && self.l.is_char_boundary(r.end) { Some("") } else { None } }
+}
+/// records spans and checks the tiling invariant incrementally: every span starts where the previous one ended, is non-empty, lies inside
+/// the line and has both ends on character boundaries
+pub struct SpanRec { pub end: usize, pub count: u8, pub tiled: bool, pub l: LineTok }
+impl SpanRec {
+    pub fn new(l: LineTok) -> Self { SpanRec { end: 0, count: 0, tiled: true, l } }
+    pub fn push(&mut self, s: HighlightSpan) {
+        if !(s.range.start == self.end && s.range.end > s.range.start && s.range.end <= self.l.n && self.l.is_char_boundary(s.range.start) && self.l.is_char_boundary(s.range.end)) { self.tiled = false; }
+        self.end = s.range.end; if self.count < 200 { self.count += 1; } std::mem::forget(s);
+    }
+}
+pub struct Hl { pub contract: bool, pub shell: (), pub input_line: LineTok, pub cursor: usize, pub spans: SpanRec, pub current_byte_index: usize, pub next_missing_kind: Option<HighlightKind> }
+/// what highlight_command returns
+pub struct Done<'a> { pub line: &'a LineStr, pub spans: SpanRec }
 
 pub struct PieceList { pub n: usize, pub a: WordPieceWithSource, pub b: WordPieceWithSource, pub i: usize }
 impl Iterator for PieceList { type Item = WordPieceWithSource; fn next(&mut self) -> Option<WordPieceWithSource> { let i = self.i; self.i += 1; if i >= 2 { None } else if i >= self.n { None } else if i == 0 { Some(self.a) } else { Some(self.b) } } }
 pub struct TokenList { pub n: usize, pub a: Token, pub b: Token, pub i: usize }
 impl Iterator for TokenList { type Item = Token; fn next(&mut self) -> Option<Token> { let i = self.i; self.i += 1; if i >= 2 { None } else if i >= self.n { None } else if i == 0 { Some(self.a) } else { Some(self.b) } } }
+impl TokenList { pub fn sort_by_key<K: Ord, F: FnMut(&Token) -> K>(&mut self, mut f: F) { if self.n >= 2 && f(&self.b) < f(&self.a) { std::mem::swap(&mut self.a, &mut self.b); } } }
 
-pub struct HOracle { pub tok_err: bool, pub ntok: usize, pub t: [(bool, usize, usize); 2], pub parse_err: [bool; 2], pub np: [usize; 2], pub p: [[(u8, usize, usize); 2]; 2], pub words_parsed: usize, pub kinds: u8, pub nested_ok: bool }
+pub const BIG: usize = 1 << 40;
+fn any_off() -> usize { let v: usize = kani::any(); kani::assume(v <= BIG); v }
+pub struct HOracle { pub tok_err: bool, pub ntok: usize, pub t: [(bool, usize, usize); 2], pub parse_err: [bool; 2], pub np: [usize; 2], pub pk: [u8; 2], pub words_parsed: usize, pub kinds: u8 }
 fn any_kind() -> HighlightKind { match kani::any::<u8>() % 4 { 0 => HighlightKind::Default, 1 => HighlightKind::Keyword, 2 => HighlightKind::Builtin, _ => HighlightKind::Assignment } }
 fn piece_of(kind: u8, s: usize, e: usize) -> WordPieceWithSource {
-    let t = Txt { len: if e >= s + 3 { e - s - 3 } else { 0 } };
+    let t = Txt { len: 0 };
     let inner = Sub { n: 0, a: (0, 0), b: (0, 0) };
     let p = match kind {
         0 => WordPiece::Text(t), 1 => WordPiece::SingleQuotedText(t), 2 => WordPiece::AnsiCQuotedText(t), 3 => WordPiece::EscapeSequence(t),
@@ -123,37 +159,44 @@ impl HOracle {
         let mk = |(op, s, e): (bool, usize, usize)| { let l = Loc { start: Pos { index: s }, end: Pos { index: e } }; if op { Token::Operator(W, l) } else { Token::Word(W, l) } };
         Ok(TokenList { n: self.ntok, a: mk(self.t[0]), b: mk(self.t[1]), i: 0 })
     }
-    fn parse_word(&mut self, raw: &str) -> Result<PieceList, ()> {
+    /// no contract: pieces anywhere
+    fn parse_word(&mut self, _raw: &str) -> Result<PieceList, ()> {
         let w = self.words_parsed; kani::assume(w < 2); self.words_parsed += 1;
         if self.parse_err[w] { return Err(()); }
-        // the word parser's offset contract: pieces in order, non-overlapping, inside the text it was given
-        let (a, b, c, d): (usize, usize, usize, usize) = (kani::any(), kani::any(), kani::any(), kani::any());
-        kani::assume(a <= b && b <= c && c <= d && d <= raw.len());
-        Ok(PieceList { n: self.np[w], a: piece_of(self.p[w][0].0, a, b), b: piece_of(self.p[w][1].0, c, d), i: 0 })
+        Ok(PieceList { n: self.np[w], a: piece_of(self.pk[w], any_off(), any_off()), b: piece_of(self.pk[w], any_off(), any_off()), i: 0 })
     }
-    fn kind(&mut self, _r: &std::ops::Range<usize>, saw: &mut bool) -> HighlightKind { *saw = true; self.kinds += 1; any_kind() }
-    /// induction hypothesis for a nested piece of a quoted sequence
-    fn nested_piece(&mut self, hl: &mut Hl, sp: SubPiece, global_offset: usize) {
-        if hl.current_byte_index > global_offset + sp.start_index { self.nested_ok = false; }
-        t_skip_ahead(hl, global_offset + sp.start_index);
-        t_append_span(hl, HighlightKind::Quoted, (global_offset + sp.start_index)..(global_offset + sp.end_index));
-    }
-    /// the contract of highlight_word_piece established by vk_c19_word_piece_step (used by the whole-program harnesses instead of inlining
-    /// the 11-arm transplant at every loop position): from a state that has not passed the piece's start, the gap before the piece and
-    /// the piece itself are covered and the cursor ends at the piece's end
-    fn piece_contract(&mut self, hl: &mut Hl, wp: WordPieceWithSource, kind: HighlightKind, global_offset: usize) {
-        if hl.current_byte_index > global_offset + wp.start_index { self.nested_ok = false; }
-        t_skip_ahead(hl, global_offset + wp.start_index);
-        t_append_span(hl, kind, (global_offset + wp.start_index)..(global_offset + wp.end_index));
-    }
-    /// induction hypothesis for a nested program (command substitution body of `len` bytes starting at `offset`)
-    fn nested_program(&mut self, hl: &mut Hl, cmd: &Txt, offset: usize) {
-        if hl.current_byte_index > offset { self.nested_ok = false; }
-        t_skip_ahead(hl, offset + cmd.len);
+    fn kind(&mut self, _r: &std::ops::Range<usize>, saw: &mut bool) -> HighlightKind { *saw = true; if self.kinds < 200 { self.kinds += 1; } any_kind() }
+    /// whatever a nested piece / nested program / word piece does, it does through append_span, skip_ahead and set_next_missing_kind
+    /// (vk_c19_word_piece_step and vk_c19_token_step check that for the real text): model it as two arbitrary calls
+    fn anything(&mut self, hl: &mut Hl) {
+        if kani::any() { t_set_missing(hl, HighlightKind::Quoted); }
+        if kani::any() { t_skip_ahead(hl, kani::any()); }
+        if kani::any() { let (a, b): (usize, usize) = (kani::any(), kani::any()); t_append_span(hl, any_kind(), a..b); }
     }
 }
 
+fn t_new(shell: (), input_line: LineTok, cursor: usize) -> Hl {
+/*@LIFT new*/
+}
+fn t_floor(this: &Hl, index: usize) -> usize {
+/*@LIFT floor*/
+}
+/// the real text in the step harnesses; in the whole-line harnesses (`contract` set, a concrete flag) the post-condition that
+/// vk_c19_append_span_step establishes for it: the cursor moves to some character boundary in [cursor, len] - to len if the range
+/// reaches the end of the line - and what it passes over is covered by well-formed spans
 fn t_append_span(this: &mut Hl, kind: HighlightKind, range: std::ops::Range<usize>) {
+    if this.contract {
+        let cur = this.current_byte_index;
+        let to: usize = kani::any();
+        kani::assume(cur <= to && to <= this.input_line.n && this.input_line.b[to]);
+        kani::assume(range.end < this.input_line.n || to == this.input_line.n);
+        if to > cur { this.spans.push(HighlightSpan::new(cur..to, kind)); }
+        this.current_byte_index = to;
+        return;
+    }
+    t_append_span_real(this, kind, range)
+}
+fn t_append_span_real(this: &mut Hl, kind: HighlightKind, range: std::ops::Range<usize>) {
 /*@LIFT append_span*/
 }
 fn t_skip_ahead(this: &mut Hl, dest: usize) {
@@ -165,126 +208,115 @@ fn t_set_missing(this: &mut Hl, kind: HighlightKind) {
 fn t_word_piece(this: &mut Hl, word_piece: WordPieceWithSource, default_text_kind: HighlightKind, global_offset: usize, __o: &mut HOracle) {
 /*@LIFT word_piece*/
 }
-/// the body of the token loop of highlight_program (`match token {...}`), with the char->byte table of an ASCII line (identity, clamped)
+/// the body of the token loop of highlight_program (`match token {...}`); the char->byte table is any function into [0, len]
 fn t_token_step(this: &mut Hl, token: Token, line: &LineStr, global_offset: usize, __o: &mut HOracle) {
     let mut saw_command_token = false;
-    let byte_offset = |char_offset: usize| if char_offset <= line.len() { char_offset } else { line.len() };
+    let byte_offset = |_char_offset: usize| { let v: usize = kani::any(); kani::assume(v <= line.len()); v };
 /*@LIFT token_step*/
 }
 fn t_program(this: &mut Hl, line: &LineStr, global_offset: usize, __o: &mut HOracle) {
 /*@LIFT program*/
 }
+fn t_command<'a>(shell: (), line: &'a LineStr, cursor: usize, __o: &mut HOracle) -> Done<'a> {
+/*@LIFT command*/
+}
 
-fn fresh(len: usize) -> Hl { Hl { input_line: LineTok { len }, cursor: 0, spans: SpanRec { end: 0, count: 0, tiled: true }, current_byte_index: 0, next_missing_kind: None } }
-fn blank_oracle() -> HOracle { HOracle { tok_err: false, ntok: 0, t: [(false, 0, 0); 2], parse_err: [false; 2], np: [0; 2], p: [[(0, 0, 0); 2]; 2], words_parsed: 0, kinds: 0, nested_ok: true } }
-
-//@proof {'props': ['C19'], 'tier': 'quick', 'setup': True, 'timeout': 900, 'uses': ['append_span', 'skip_ahead', 'set_missing', 'word_piece'], 'bounds': 'one word piece of symbolic kind (11 kinds) at a symbolic range [s, e) inside a 16-byte line, processed from an arbitrary tiled state whose cursor has not passed s; quoted sequences with 0..2 nested pieces at symbolic in-order offsets', 'desc': 'one inductive step of the tiling invariant: after highlight_word_piece the spans still tile [0, cursor) with non-empty contiguous spans and the cursor is exactly at the end of the piece'}
-#[kani::proof]
-#[kani::unwind(4)]
-fn vk_c19_word_piece_step() {
-    let cur: usize = kani::any(); let g: usize = kani::any(); let s: usize = kani::any(); let e: usize = kani::any();
-    kani::assume(g <= 4 && s <= e && e <= 12 && cur <= g + s);
-    let mut hl = fresh(16);
-    hl.current_byte_index = cur; hl.spans.end = cur;
+fn blank_oracle() -> HOracle { HOracle { tok_err: false, ntok: 0, t: [(false, 0, 0); 2], parse_err: [false; 2], np: [0; 2], pk: [0; 2], words_parsed: 0, kinds: 0 } }
+/// an arbitrary state satisfying the invariant: spans tile [0, cur), cur is a character boundary inside the line
+fn any_state(l: LineTok, contract: bool) -> (Hl, usize) {
+    let cur: usize = kani::any(); kani::assume(cur <= l.n && l.b[cur]);
+    let mut hl = Hl { contract, shell: (), input_line: l, cursor: kani::any(), spans: SpanRec::new(l), current_byte_index: cur, next_missing_kind: None };
+    hl.spans.end = cur;
     if kani::any() { hl.next_missing_kind = Some(HighlightKind::Quoted); }
+    (hl, cur)
+}
+fn invariant(hl: &Hl, before: usize) -> bool {
+    hl.spans.tiled && hl.spans.end == hl.current_byte_index && hl.current_byte_index >= before && hl.current_byte_index <= hl.input_line.n && hl.input_line.b[hl.current_byte_index]
+}
+
+//@proof {'props': ['C19'], 'tier': 'quick', 'setup': True, 'timeout': 900, 'uses': ['append_span', 'floor'], 'bounds': 'a line of 0..8 bytes with a symbolic character-boundary bitmap (multi-byte text); an arbitrary state whose spans tile [0, cur); ANY range start..end over the whole of usize (reversed, behind the cursor, past the end, inside a character)', 'desc': 'the one inductive step everything rests on: append_span keeps "the spans tile [0, cursor), in order, without gaps or overlaps, non-empty, on character boundaries, inside the line" whatever range it is given, never panics, never moves the cursor back; a range ending at or after the end of the line drives the cursor to the end (the closing skip_ahead therefore completes the cover); a well-formed range is kept as given'}
+#[kani::proof]
+#[kani::unwind(11)]
+fn vk_c19_append_span_step() {
+    let l = any_line(MAXN);
+    let (mut hl, cur) = any_state(l, false);
+    let (s, e): (usize, usize) = (kani::any(), kani::any());
+    t_append_span(&mut hl, any_kind(), s..e);
+    kani::cover!(s < cur && e > cur && e < l.n, "range_reaching_back_behind_the_cursor");
+    kani::cover!(e < l.n && !l.b[e] && s < e, "range_ending_inside_a_character");
+    kani::cover!(s > e, "reversed_range");
+    kani::cover!(cur < s && s < e && e < l.n && l.b[s] && l.b[e], "well_formed_range_after_a_gap");
+    assert!(hl.spans.tiled, "C19.append.spans_ordered_contiguous_non_overlapping_on_character_boundaries");
+    assert!(invariant(&hl, cur), "C19.append.invariant_preserved_cursor_monotone");
+    if e >= l.n { assert!(hl.current_byte_index == l.n, "C19.append.range_reaching_the_end_completes_the_cover"); }
+    if cur <= s && s <= e && e <= l.n && l.b[s] && l.b[e] { assert!(hl.current_byte_index == e && hl.spans.count == (s > cur) as u8 + (e > s) as u8, "C19.append.well_formed_range_kept_as_given"); }
+}
+
+//@proof {'props': ['C19'], 'tier': 'quick', 'timeout': 900, 'uses': ['append_span', 'floor', 'skip_ahead', 'set_missing', 'word_piece'], 'bounds': 'one word piece of symbolic kind (11 kinds) at ARBITRARY offsets (< 2^40) relative to an arbitrary base, on a line of 0..8 bytes with symbolic character boundaries, from an arbitrary tiled state; nested pieces / nested programs make arbitrary span calls', 'desc': 'highlight_word_piece changes the span list only through append_span / skip_ahead, so it preserves the tiling invariant for every piece kind and every offset the word parser could produce; no arithmetic overflow, no panic'}
+#[kani::proof]
+#[kani::unwind(11)]
+fn vk_c19_word_piece_step() {
+    let l = any_line(MAXN);
+    let (mut hl, cur) = any_state(l, false);
     let kind: u8 = kani::any(); kani::assume(kind < 11);
-    let mut wp = piece_of(kind, s, e);
-    // quoted sequences: 0..2 nested pieces, in order, inside the quotes
-    let (n, a0, a1, b0, b1): (usize, usize, usize, usize, usize) = (kani::any(), kani::any(), kani::any(), kani::any(), kani::any());
-    kani::assume(n <= 2 && s <= a0 && a0 <= a1 && a1 <= b0 && b0 <= b1 && b1 <= e);
-    if kind == 4 { wp.piece = WordPiece::DoubleQuotedSequence(Sub { n, a: (a0, a1), b: (b0, b1) }); }
-    if kind == 5 { wp.piece = WordPiece::GettextDoubleQuotedSequence(Sub { n, a: (a0, a1), b: (b0, b1) }); }
-    // command substitutions: `$(` + body + `)` / backquotes: the body lies inside the piece
-    if kind == 8 { kani::assume(e >= s + 2); wp.piece = WordPiece::BackquotedCommandSubstitution(Txt { len: e - s - 2 }); }
-    if kind == 9 { kani::assume(e >= s + 3); wp.piece = WordPiece::CommandSubstitution(Txt { len: e - s - 3 }); }
+    let mut wp = piece_of(kind, any_off(), any_off());
+    let n: usize = kani::any(); kani::assume(n <= 2);
+    if kind == 4 { wp.piece = WordPiece::DoubleQuotedSequence(Sub { n, a: (any_off(), any_off()), b: (any_off(), any_off()) }); }
+    if kind == 5 { wp.piece = WordPiece::GettextDoubleQuotedSequence(Sub { n, a: (any_off(), any_off()), b: (any_off(), any_off()) }); }
     let mut o = blank_oracle();
-    t_word_piece(&mut hl, wp, any_kind(), g, &mut o);
-    kani::cover!(kind == 4 && n == 2 && a0 > s && b1 < e, "double_quoted_with_two_inner_pieces_and_gaps");
-    kani::cover!(kind == 9 && cur < g + s, "command_substitution_after_a_gap");
-    kani::cover!(kind == 0 && s == e, "empty_text_piece");
-    assert!(o.nested_ok, "C19.piece.nested_parts_visited_in_order");
-    assert!(hl.spans.tiled, "C19.piece.spans_contiguous_ordered_non_empty");
-    assert!(hl.current_byte_index == g + e && hl.spans.end == hl.current_byte_index, "C19.piece.cursor_at_end_of_piece_and_everything_before_it_covered");
+    t_word_piece(&mut hl, wp, any_kind(), any_off(), &mut o);
+    kani::cover!(kind == 4 && n == 2, "double_quoted_with_two_inner_pieces");
+    kani::cover!(kind == 9 && hl.current_byte_index > cur, "command_substitution_moving_the_cursor");
+    assert!(invariant(&hl, cur), "C19.piece.tiling_invariant_preserved");
 }
 
-fn leaf_kind(k: u8) -> u8 { match k { 0 => 0, 1 => 1, _ => 6 } }   // Text, SingleQuotedText, ParameterExpansion
-
-/// `max_tok` tokens, `max_pieces` leaf pieces per word
-fn program_harness(max_tok: usize, max_pieces: usize) {
-    let line = LineStr { n: 5 };
-    let mut hl = fresh(5);
-    let mut o = blank_oracle();
-    o.tok_err = kani::any();
-    o.ntok = kani::any(); kani::assume(o.ntok <= max_tok);
-    let (s0, e0, s1, e1): (usize, usize, usize, usize) = (kani::any(), kani::any(), kani::any(), kani::any());
-    kani::assume(s0 <= e0 && e0 <= s1 && s1 <= e1 && e1 <= 5);
-    o.t = [(kani::any(), s0, e0), (kani::any(), s1, e1)];
-    o.parse_err = [kani::any(), kani::any()];
-    let mut w = 0;
-    while w < max_tok {
-        o.np[w] = kani::any(); kani::assume(o.np[w] <= max_pieces);
-        // pieces are plain text here (concrete kind): what each of the 11 kinds does to the cursor is decided by vk_c19_word_piece_step,
-        // whose post-condition (cursor at the end of the piece, tiling intact) is all this loop relies on; offsets are chosen by the oracle
-        o.p[w] = [(0, 0, 0), (0, 0, 0)];
-        w += 1;
-    }
-    t_program(&mut hl, &line, 0, &mut o);
-    kani::cover!(!o.tok_err && o.ntok == max_tok && !o.t[0].0 && s0 > 0 && e0 < 5, "word_with_gaps_around_it");
-    kani::cover!(o.tok_err, "tokenizer_error");
-    kani::cover!(!o.tok_err && o.ntok == 0, "blank_or_comment_line");
-    assert!(o.nested_ok, "C19.program.pieces_visited_in_order");
-    assert!(hl.spans.tiled, "C19.program.spans_contiguous_ordered_non_empty");
-    assert!(hl.spans.end == 5 && hl.current_byte_index == 5, "C19.program.spans_cover_the_whole_line");
-    assert!(hl.spans.count >= 1, "C19.program.at_least_one_span");
-}
-fn any_below3() -> u8 { let v: u8 = kani::any(); kani::assume(v < 3); v }
-
-//@proof {'props': ['C19'], 'tier': 'quick', 'timeout': 900, 'uses': ['append_span', 'skip_ahead', 'set_missing', 'program'], 'bounds': 'a 5-byte ASCII line; tokenizer error, or 0..1 token (operator / word) at a symbolic in-range character range; the word: parse error or 0..2 text pieces at symbolic in-order offsets inside the word (the other piece kinds: vk_c19_word_piece_step)', 'desc': 'highlight_program on a whole line with one token: whatever the token and piece layout (within the offset contract), the spans are ordered, contiguous, non-empty and cover exactly [0, len) - rendering the spans reproduces the line; a tokenizer error yields one span over the whole line'}
+//@proof {'props': ['C19'], 'tier': 'quick', 'timeout': 900, 'uses': ['append_span', 'floor', 'skip_ahead', 'set_missing', 'word_piece', 'token_step'], 'bounds': 'one token (operator or word, symbolic) at ARBITRARY character offsets, base offset < 2^40, a 5-byte nested line and an input line of 0..8 bytes with symbolic boundaries, from an arbitrary tiled state; the word: parse error or 0..2 pieces of one symbolic kind at arbitrary offsets', 'desc': 'one iteration of the token loop of highlight_program preserves the tiling invariant for any token the tokenizer could deliver (out of order, overlapping, out of range)'}
 #[kani::proof]
-#[kani::unwind(8)]
-fn vk_c19_program_one_token() { program_harness(1, 2); }
-
-//@proof {'props': ['C19'], 'tier': 'quick', 'timeout': 900, 'uses': ['append_span', 'skip_ahead', 'set_missing', 'program'], 'bounds': 'a 5-byte ASCII line; 0..2 tokens at symbolic in-order ranges; each word: parse error or 0..1 text piece', 'desc': 'highlight_program with two tokens: gaps before, between and after the tokens are filled; coverage of [0, len) as above'}
-#[kani::proof]
-#[kani::unwind(8)]
-fn vk_c19_program_two_tokens() { program_harness(2, 1); }
-
-//@proof {'props': ['C19'], 'tier': 'quick', 'timeout': 900, 'uses': ['append_span', 'skip_ahead', 'set_missing', 'word_piece', 'token_step'], 'bounds': 'one token (operator or word, symbolic) at a symbolic character range inside a 12-byte ASCII line, processed from an arbitrary tiled state whose cursor has not passed its start; the word: parse error or 0..2 text pieces at in-order offsets inside it', 'desc': 'one iteration of the token loop of highlight_program: the spans stay contiguous, ordered and non-empty and the cursor never moves past the end of the token (an operator or a fully parsed word leaves it exactly there; a word that does not parse is left to the next gap filler)'}
-#[kani::proof]
-#[kani::unwind(5)]
+#[kani::unwind(11)]
 fn vk_c19_token_step() {
-    let line = LineStr { n: 12 };
-    let (cur, g, s, e): (usize, usize, usize, usize) = (kani::any(), kani::any(), kani::any(), kani::any());
-    kani::assume(g <= 2 && s <= e && e <= 12 && cur <= g + s);
-    let mut hl = fresh(14);
-    hl.current_byte_index = cur; hl.spans.end = cur;
+    let l = any_line(MAXN);
+    let line = LineStr { l: any_line(5) };
+    let (mut hl, cur) = any_state(l, true);
     let mut o = blank_oracle();
     o.parse_err = [kani::any(), false];
     o.np[0] = kani::any(); kani::assume(o.np[0] <= 2);
+    o.pk[0] = kani::any(); kani::assume(o.pk[0] < 11);
     let is_op: bool = kani::any();
-    let l = Loc { start: Pos { index: s }, end: Pos { index: e } };
-    let token = if is_op { Token::Operator(W, l) } else { Token::Word(W, l) };
-    t_token_step(&mut hl, token, &line, g, &mut o);
+    let loc = Loc { start: Pos { index: kani::any() }, end: Pos { index: kani::any() } };
+    let token = if is_op { Token::Operator(W, loc) } else { Token::Word(W, loc) };
+    t_token_step(&mut hl, token, &line, any_off(), &mut o);
     kani::cover!(!is_op && !o.parse_err[0] && o.np[0] == 2, "word_with_two_pieces");
-    kani::cover!(is_op && cur < g + s, "operator_after_a_gap");
-    assert!(hl.spans.tiled, "C19.token.spans_contiguous_ordered_non_empty");
-    assert!(hl.spans.end == hl.current_byte_index, "C19.token.everything_before_the_cursor_is_covered");
-    assert!(hl.current_byte_index <= g + e && hl.current_byte_index >= cur, "C19.token.cursor_monotone_and_within_the_token");
-    if is_op && s < e { assert!(hl.current_byte_index == g + e, "C19.token.operator_span_ends_at_token_end"); }
+    kani::cover!(is_op && hl.current_byte_index > cur, "operator_moving_the_cursor");
+    assert!(invariant(&hl, cur), "C19.token.tiling_invariant_preserved");
 }
 
-//@proof {'props': ['C19'], 'tier': 'quick', 'timeout': 900, 'uses': ['append_span', 'skip_ahead', 'program'], 'bounds': 'a 5-byte ASCII line; the tokenizer fails, or finds no token (blank / comment line)', 'desc': 'the frame of highlight_program: with no tokens the whole line is one gap span; with a tokenizer error it is one default span; in both cases [0, len) is covered exactly (the token loop itself: vk_c19_token_step; whole-line runs with tokens: vk_c19_program_one_token / two_tokens)'}
-#[kani::proof]
-#[kani::unwind(8)]
-fn vk_c19_program_frame() {
-    let line = LineStr { n: 5 };
-    let mut hl = fresh(5);
+/// highlight_command on a whole line: `max_tok` tokens anywhere
+fn command_harness(max_tok: usize) {
+    let line = LineStr { l: any_line(5) };
+    let n = line.l.n;
     let mut o = blank_oracle();
     o.tok_err = kani::any();
-    o.ntok = 0;
-    t_program(&mut hl, &line, 0, &mut o);
+    o.ntok = kani::any(); kani::assume(o.ntok <= max_tok);
+    o.t = [(kani::any(), kani::any(), kani::any()), (kani::any(), kani::any(), kani::any())];
+    o.parse_err = [kani::any(), kani::any()];
+    o.np = [kani::any(), kani::any()]; kani::assume(o.np[0] <= 2 && o.np[1] <= 2);
+    let done = t_command((), &line, kani::any(), &mut o);
+    kani::cover!(!o.tok_err && o.ntok == max_tok && o.t[0].1 > 0 && o.t[0].2 < n, "token_with_gaps_around_it");
+    kani::cover!(!o.tok_err && (max_tok < 2 || (o.ntok == 2 && o.t[1].1 < o.t[0].1)), "tokens_delivered_out_of_order");
     kani::cover!(o.tok_err, "tokenizer_error");
-    kani::cover!(!o.tok_err, "no_tokens");
-    assert!(hl.spans.tiled && hl.spans.count == 1, "C19.frame.one_span");
-    assert!(hl.spans.end == 5 && hl.current_byte_index == 5, "C19.frame.covers_the_whole_line");
+    kani::cover!(!o.tok_err && o.ntok == 0 && n == 5 && !line.l.b[1], "blank_or_comment_line_with_a_multibyte_character");
+    assert!(done.spans.tiled, "C19.command.spans_ordered_contiguous_non_overlapping_on_character_boundaries");
+    assert!(done.spans.end == n, "C19.command.spans_cover_every_byte_of_the_line");
+    assert!(n == 0 || done.spans.count >= 1, "C19.command.at_least_one_span");
+    assert!(std::ptr::eq(done.line, &line), "C19.command.result_is_paired_with_the_line_given");
 }
+
+//@proof {'props': ['C19'], 'tier': 'quick', 'timeout': 900, 'uses': ['command', 'new', 'append_span', 'floor', 'skip_ahead', 'set_missing', 'program'], 'bounds': 'a line of 0..5 bytes with symbolic character boundaries; tokenizer error, or 0..1 token (operator / word) at arbitrary character offsets; the word: parse error or 0..2 pieces doing arbitrary span calls; any cursor', 'desc': 'highlight_command end to end: starts from an empty span list at offset 0 on the line it was given, and whatever the tokenizer and the word parser return, the spans it hands back tile [0, len) exactly - ordered, contiguous, non-overlapping, non-empty, on character boundaries - so rendering them reproduces the line; no panic'}
+#[kani::proof]
+#[kani::unwind(11)]
+fn vk_c19_command_one_token() { command_harness(1); }
+
+//@proof {'props': ['C19'], 'tier': 'quick', 'timeout': 900, 'uses': ['command', 'new', 'append_span', 'floor', 'skip_ahead', 'set_missing', 'program'], 'bounds': 'as above with 0..2 tokens at arbitrary offsets: out of order (here-documents), overlapping, out of range', 'desc': 'highlight_command with two tokens in any order and position'}
+#[kani::proof]
+#[kani::unwind(11)]
+fn vk_c19_command_two_tokens() { command_harness(2); }
